@@ -55,7 +55,24 @@ pub fn outcome_label(c: &CheckView) -> String {
 // C04: announced states and result match what happened
 
 pub fn mon_c04(f: &Flow, setup: &Setup, m: &mut Mon) {
+    // a check that delivered its result although a step its response required never happened (no install
+    // plan requested for an offered update, policy never asked, installer never run): the model cannot name
+    // an outcome for it, which is itself the violation ("the states name the path actually taken")
+    for c in f.checks.iter().filter(|c| c.complete && matches!(c.exp.outcome, Some(Outcome::Incomplete))) {
+        m.judge("c04-result-without-required-steps", false, "", || {
+            format!(
+                "check #{} delivered {:?} but the flow its response required was not carried out (plan requested: {}, policy asked: {}, install finished: {}); events {:?}",
+                c.idx,
+                c.result.as_ref().map(|r| r.1.as_ref().map(|l| l.len()).map_err(|e| e.clone())),
+                c.plan.is_some(),
+                c.can_start.is_some(),
+                c.install_done.is_some(),
+                c.events.iter().map(|e| short(&e.1)).collect::<Vec<_>>()
+            )
+        });
+    }
     for c in f.checks.iter().filter(|c| judged(c)) {
+        m.hit("c04-result-without-required-steps");
         let lab = outcome_label(c);
         let e = &c.exp;
         // first event is CheckingForUpdates by segmentation; exactly one result closes the check
@@ -345,9 +362,11 @@ pub fn mon_c10(f: &Flow, m: &mut Mon) {
         for (r, x) in c.reports.iter().zip(e.reports.iter()) {
             match delivery_failed(r) {
                 Some(true) => {
-                    let pairs: usize = x.apps.iter().map(|a| a.3.len()).sum();
-                    lo += 1;
-                    hi += pairs.max(1);
+                    // "counted once per event": the per-app result report carries one event per app, every
+                    // other report carries one event shared by its apps
+                    let n = if x.what == "install-results" { x.apps.iter().map(|a| a.3.len()).sum::<usize>().max(1) } else { 1 };
+                    lo += n;
+                    hi += n;
                 }
                 Some(false) => {}
                 None => all_known = false,
